@@ -157,6 +157,15 @@ func Explore(cfg Config, o Opts, body func(), check func(r *Result) Verdict) *St
 				}
 			}
 		}
+		if r.StepLimit {
+			// the execution did not end within the step limit (a goroutine spins without blocking): it has
+			// been judged as it stands; its choice points are not expanded (each alternative would spin as
+			// well), and unless the oracle flagged it the exploration is not complete
+			if v.Violation == "" {
+				st.Complete = false
+			}
+			return
+		}
 		sigs := make([]uint64, len(r.Points))
 		for i, p := range r.Points {
 			sigs[i] = p.Sig
